@@ -22,6 +22,12 @@ _AMBIENT = {"get", "pop", "close", "read", "write", "wait", "put", "send", "star
 _SKIP_MODULES = ("lbry.wallet.server", "lbry.testcase", "lbry.wallet.orchstr8", "scripts", "lbry.extras.daemon.migrator")
 
 
+# plain functions that hand back an awaitable the name-based resolution cannot see (one line of reason each)
+_KNOWN = {
+    "lbry.wallet.network.Network.rpc": "returns ClientSession.send_request(…), a coroutine (`send_request` also names the synchronous JSON-RPC framing method)",
+}
+
+
 class Awaitables:
     def __init__(self, prog):
         self.prog = prog
@@ -30,7 +36,17 @@ class Awaitables:
             if f.module.name.startswith(_SKIP_MODULES):
                 continue
             self.by_name.setdefault(f.name, []).append(f)
-        self.aw = set()
+        # (receiver text, method) pairs that some call site of the program awaits directly: evidence that `<…>.recv.method()` is awaitable
+        self.awaited_pairs = {}
+        for m in prog.modules.values():
+            if m.name.startswith(_SKIP_MODULES):
+                continue
+            for n in ast.walk(m.tree):
+                if isinstance(n, ast.Await) and isinstance(n.value, ast.Call) and isinstance(n.value.func, ast.Attribute):
+                    k = self._pair(n.value)
+                    if k:
+                        self.awaited_pairs[k] = self.awaited_pairs.get(k, 0) + 1
+        self.aw = {q for q in _KNOWN if q in prog.functions}
         for q, f in prog.functions.items():
             if isinstance(f.node, ast.AsyncFunctionDef) and not self._is_generator(f.node):
                 self.aw.add(q)
@@ -43,7 +59,7 @@ class Awaitables:
                 if any(dotted(d.func if isinstance(d, ast.Call) else d) in ("property", "contextlib.contextmanager", "contextmanager") for d in f.node.decorator_list):
                     continue
                 rets = [n for n in self._local(f.node) if isinstance(n, ast.Return)]
-                if rets and all(r.value is not None and isinstance(r.value, ast.Call) and (call_name(r.value) in _FUTURE_MAKERS or self.awaitable_call(r.value, exclude=f)) for r in rets):
+                if rets and all(r.value is not None and isinstance(r.value, ast.Call) and (call_name(r.value) in _FUTURE_MAKERS or self.awaitable_call(r.value, exclude=f, owner=f if f.cls is not None else None, owner_module=f.module)) for r in rets):
                     self.aw.add(q)
                     changed = True
 
@@ -60,9 +76,42 @@ class Awaitables:
     def _is_generator(self, fn):
         return any(isinstance(n, (ast.Yield, ast.YieldFrom)) for n in self._local(fn))
 
-    def awaitable_call(self, call, exclude=None):
+    @staticmethod
+    def _pair(call):
+        f = call.func
+        if not isinstance(f, ast.Attribute):
+            return None
+        recv = dotted(f.value)
+        if recv is None or recv in ("self", "cls"):
+            return None
+        return (recv, f.attr)
+
+    def awaitable_call(self, call, exclude=None, owner=None, owner_module=None):
         nm = call_name(call)
-        if not nm or nm in _AMBIENT:
+        if not nm:
+            return False
+        # self.m(...): the method of the enclosing class (exact)
+        if owner is not None and owner.cls is not None and isinstance(call.func, ast.Attribute) and isinstance(call.func.value, ast.Name) and call.func.value.id == "self":
+            m = self.prog.lookup_method(owner.cls, nm)
+            if m is not None:
+                return 2 if (m.qualname in self.aw and m is not exclude) else 0
+        # Class.m(...) / module_function(...): resolved through the module's own names (exact)
+        if owner_module is not None:
+            tgt = None
+            if isinstance(call.func, ast.Attribute) and isinstance(call.func.value, ast.Name) and call.func.value.id not in ("self", "cls"):
+                c = self.prog.resolve_name(owner_module, call.func.value.id)
+                if hasattr(c, "methods"):
+                    tgt = self.prog.lookup_method(c, nm)
+            elif isinstance(call.func, ast.Name):
+                c = self.prog.resolve_name(owner_module, nm)
+                if hasattr(c, "node") and isinstance(getattr(c, "node", None), (ast.FunctionDef, ast.AsyncFunctionDef)):
+                    tgt = c
+            if tgt is not None and hasattr(tgt, "qualname"):
+                return 2 if (tgt.qualname in self.aw and tgt is not exclude) else 0
+        k = self._pair(call)
+        if k and self.awaited_pairs.get(k, 0) >= 2 and nm not in ("get", "pop", "wait", "put", "acquire", "close", "read", "write", "send", "drain", "result", "add"):
+            return 2           # the same receiver.method is awaited at two or more other places
+        if nm in _AMBIENT:
             return False
         if isinstance(call.func, ast.Name):
             # a bare name: a local / module function or an imported one; classes are constructors
@@ -70,7 +119,9 @@ class Awaitables:
         else:
             cands = [f for f in self.by_name.get(nm, []) if f.cls is not None or f.parent is None]
         cands = [f for f in cands if f is not exclude]
-        return bool(cands) and all(f.qualname in self.aw for f in cands)
+        if bool(cands) and all(f.qualname in self.aw for f in cands):
+            return 2 if (k and self.awaited_pairs.get(k, 0) >= 1) else 1
+        return 0
 
 
 def check_function(aw, fa):
@@ -82,20 +133,24 @@ def check_function(aw, fa):
         for ch in ast.iter_child_nodes(n):
             parents[id(ch)] = n
     awaited_names = {dotted(n.value) for n in ast.walk(fn) if isinstance(n, ast.Await) and dotted(n.value)}
+    loosely = {x.id for n in ast.walk(fn) if isinstance(n, ast.Call) for a in list(n.args) + [k.value for k in n.keywords] for x in ast.walk(a) if isinstance(x, ast.Name)}
     handed = set()
     for n in ast.walk(fn):
-        if isinstance(n, ast.Call):
+        if isinstance(n, ast.Call) and call_name(n) in _SCHEDULERS | {"add_done_callback", "append", "add", "put_nowait", "extend"}:
             for a in list(n.args) + [k.value for k in n.keywords]:
                 for x in ast.walk(a):
                     if isinstance(x, ast.Name):
                         handed.add(x.id)
-        elif isinstance(n, (ast.Return, ast.Yield)) and n.value is not None:
+        elif isinstance(n, (ast.Return, ast.Yield)) and n.value is not None and not is_async:
             for x in ast.walk(n.value):
                 if isinstance(x, ast.Name):
                     handed.add(x.id)
     out = []
     for c in Awaitables._local(fn):
-        if not isinstance(c, ast.Call) or not aw.awaitable_call(c):
+        if not isinstance(c, ast.Call):
+            continue
+        strength = aw.awaitable_call(c, owner=fa.fi if fa.fi.cls is not None else (fa.fi.parent if getattr(fa.fi, "parent", None) is not None and fa.fi.parent.cls is not None else None), owner_module=fa.fi.module)
+        if not strength:
             continue
         p = parents.get(id(c))
         verdict, why = True, ""
@@ -109,7 +164,7 @@ def check_function(aw, fa):
         elif isinstance(p, (ast.Assign, ast.AnnAssign, ast.NamedExpr)):
             tg = p.targets[0] if isinstance(p, ast.Assign) else p.target
             nm = dotted(tg)
-            if nm and nm.split(".")[0] not in ("self",) and nm not in awaited_names and nm.split(".")[0] not in handed:
+            if nm and nm.split(".")[0] not in ("self",) and nm not in awaited_names and nm.split(".")[0] not in handed and (strength == 2 or nm.split(".")[0] not in loosely):
                 verdict, why = False, f"stored in `{nm}` which is neither awaited nor handed on"
         else:
             # argument of another call, element of a list / comprehension, operand of a conditional expression: follow up to the statement
